@@ -145,6 +145,7 @@ def tables(an):
     if len(others) == 1 and len(eid_cells) == 2:
         res['ctx'].append((('self',) + others[0], ('self', 'vendor_id_selector')))
     found = {k: [(a, b) for a, b in v] for k, v in res.items()}
+    found['ctx_halves'] = [(('self',) + c[name], ('self', name)) for name in ('request', 'response') if name in c]
     for k in res:
         res[k] = [(a, b) for a, b in res[k] if a != b]
     return res, found
